@@ -397,6 +397,9 @@ func (b *gwsGRPCWebHandler) readMD(stream *gRPCWebSocketStream, data []byte) {
 
 	mimeHeader, err := tp.ReadMIMEHeader()
 	if err != nil {
+		// The call has failed and the socket is closed, but messages already read from it are still dispatched to OnMessage.
+		// Ignore them, otherwise one that happens to parse as metadata would start the call after its failure has been reported.
+		stream.closed = true
 		stream.sendTrailer(status.New(codes.InvalidArgument, "expected metadata as valid HTTP/1.1 header"))
 		return
 	}
